@@ -32,7 +32,11 @@ REQUIRED = [
     "KV.C16.codeSort_refines", "KV.C16.codeSort_sorted_perm", "KV.C16.sizedSort_perm_sorted",
     "KV.C16.counting_suffix", "KV.C16.counting_prefix", "KV.C16.counting_context", "KV.C16.codeSort_ok",
     "KV.C16.codeSort_correct", "KV.C16.bufferedEntry_refines", "KV.C16.merge_ret_sufficient",
-    "KV.C16.mergePhase", "KV.C16.fileEntry_refines", "KV.C16.codeSort_eq_spec", "KV.C16.codeSort_combine_eq_spec",
+    "KV.C16.mergePhase", "KV.C16.sized_swap_exchanges", "KV.C16.sized_swap_records", "KV.C16.swap_matches_code",
+    "KV.C16.wordSwap_not_exchange", "KV.C16.sizedSort_bytes", "KV.C16.spill_roundtrip", "KV.C16.spill_m8_breaks",
+    "KV.C16.spill_records_roundtrip", "KV.C16.afterBlockSorterBytes_refines", "KV.C16.codeSortBytes_eq_spec",
+    "KV.C16.codeSortBytes_ok", "KV.C16.output_blocks_invariant", "KV.C16.counting_int", "KV.C16.intLt_singleton", "KV.C16.proxy_iterator_arith", "KV.C16.pass_spill_bytes", "KV.C16.mergeGroup_uniform",
+    "KV.C16.byteEntry_refines", "KV.C16.byteEntry_unrounded_breaks", "KV.C16.stream_write_roundtrip", "KV.C16.pread_blocks_invariant", "KV.C16.pwrite_roundtrip", "KV.C16.fileEntry_refines", "KV.C16.codeSort_eq_spec", "KV.C16.codeSort_combine_eq_spec",
 ]
 
 BOOST = ["-Wl,--no-as-needed", "-lboost_thread", "-lboost_system", "-ldl"]
@@ -87,7 +91,7 @@ def gen_shape(rng):
     return order, kn, rs, comb
 
 
-def gen_data(rng, n, order, kn, rs, comb, dist):
+def gen_data(rng, n, order, kn, rs, comb, dist, counts=None):
     """n records as one bytes object.  dist: how many distinct keys / which input order."""
     kb = keybytes(order, kn, rs)
     if dist == "alleq":
@@ -109,7 +113,24 @@ def gen_data(rng, n, order, kn, rs, comb, dist):
         ws = [rng.choice([rng.randrange(vocab), rng.randrange(vocab), 0xFFFFFFFF, 0x80000000, 0x7FFFFFFF,
                           rng.getrandbits(32)]) if rng.random() < 0.15 else rng.randrange(vocab) for _ in range(kn)]
         return struct.pack("<%dI" % kn, *ws)
-    if nkeys is not None:
+    keys = None
+    if dist == "blockdistinct" and counts:
+        # every chain block duplicate-free, the same few keys in every block (hypothesis of the duplicate-free clause)
+        cap = max(counts)
+        pool, seen, tries = [], set(), 0
+        while len(pool) < cap + rng.choice([0, 1, 3]) and tries < 20 * cap + 100:
+            k = rand_key()
+            tries += 1
+            if k not in seen:
+                seen.add(k)
+                pool.append(k)
+        if len(pool) >= cap:
+            keys = []
+            for cnt in counts:
+                keys += rng.sample(pool, cnt)
+    if keys is not None:
+        pass
+    elif nkeys is not None:
         pool = [rand_key() for _ in range(nkeys)]
         keys = [rng.choice(pool) for _ in range(n)]
     else:
@@ -127,6 +148,15 @@ def gen_data(rng, n, order, kn, rs, comb, dist):
         recs.sort(key=kf)
     elif dist == "reversed":
         recs.sort(key=kf, reverse=True)
+    elif dist == "nearsorted":
+        # ascending, except that the last record of every chain block belongs a few places earlier
+        recs.sort(key=kf)
+        off = 0
+        for cnt in (counts or [len(recs)]):
+            if cnt >= 3:
+                j = off + rng.randrange(1, cnt - 1)
+                recs.insert(off + cnt - 1, recs.pop(j))
+            off += cnt
     return b"".join(recs)
 
 
@@ -149,7 +179,9 @@ def gen_case(rng, tier, idx):
         if rs > 16:       # keep the biggest cases to small records (driver time)
             order, kn, rs, comb = rng.choice([("int", 8, 8, "none"), ("int", 4, 12, "count"), ("suffix", 2, 16, "real"),
                                               ("bytes", 0, 12, "none"), ("prefix", 3, 12, "none")])
-    dist = rng.choice(["free", "free", "heavy", "heavy", "half", "alleq", "sorted", "reversed"])
+    dist = rng.choice(["free", "free", "heavy", "heavy", "half", "alleq", "sorted", "reversed", "nearsorted"])
+    if comb != "none" and rng.random() < 0.35:
+        dist = "blockdistinct"
     # ---- chain: how many blocks
     target_blocks = rng.choice([1, 1, 2, 2, 3, 4, 5, 8, 13, 16, 17, 40, 100, 300])
     if n > 40000:
@@ -214,7 +246,7 @@ def gen_case(rng, tier, idx):
 
 def case_data(c):
     import random
-    return gen_data(random.Random(c["dseed"]), c["n"], c["order"], c["kn"], c["rs"], c["comb"], c["dist"])
+    return gen_data(random.Random(c["dseed"]), c["n"], c["order"], c["kn"], c["rs"], c["comb"], c["dist"], c.get("counts"))
 
 
 def op_line(c, path, out="-"):
@@ -322,6 +354,22 @@ def evaluate(ctx, c, line, hM, hO, dM):
             probs.append(("oracle", "per-key totals not preserved by the combiner"))
         if o.get("blocks_nodup") == "1" and o.get("nodup_out") != "1":
             probs.append(("oracle", "duplicate keys in the output although every input block was duplicate-free"))
+    # ---- output chain blocks (checked directly, independent of the model): whole records, all but the last full
+    ob = h.get("oblocks")
+    if ob not in (None, "-", "none"):
+        sizes = []
+        for tok in ob.split(","):
+            a, b = tok.split("*")
+            sizes += [int(a)] * int(b)
+        ocbc = 2 if c["cbc"] == 1 else c["cbc"]
+        capb = (c["cmem"] // (c["cbc"] * c["rs"]) * c["rs"]) if c["mode"] == "blocking" else \
+            (max(c["cmem"], c["rs"] * ocbc) // (ocbc * c["rs"]) * c["rs"])
+        if any(x % c["rs"] for x in sizes):
+            probs.append(("oracle", "an output block's ValidSize is not a multiple of the entry size"))
+        elif any(x != capb for x in sizes[:-1]) or any(x > capb for x in sizes):
+            probs.append(("oracle", "an output block other than the last is not full (or exceeds the block size)"))
+        elif sum(sizes) != int(h.get("n_out", "0")) * c["rs"]:
+            probs.append(("oracle", "output blocks do not add up to the output"))
     # ---- python oracle on the dumped output
     if c["_out"] != "-" and os.path.exists(c["_out"]):
         out = open(c["_out"], "rb").read()
@@ -339,6 +387,9 @@ def evaluate(ctx, c, line, hM, hO, dM):
             fields += ["mret", "lazy"]
         if c["mode"] == "retout":
             fields += ["mret"]
+        fields.append("dwrites")      # sizes of all write() calls to the data temps, spill and every pass (Stream blocks of buffer_size)
+        fields.append("spill")        # sizes of the write() calls that spill the sorted blocks (ValidSize of each block)
+        fields.append("oblocks")  # sizes of the chain blocks the consumer of the sorted output receives
     for f in fields:
         if h.get(f) != d.get(f):
             probs.append(("corr", "field %s: impl %s model %s" % (f, h.get(f), d.get(f))))
@@ -513,6 +564,57 @@ def offsets_stream(ctx, hexe, dexe, n_cases, wdir):
     return found
 
 
+def bytes_stream(ctx, hexe, dexe, n_cases, wdir):
+    """util/sized_iterator.hh directly: swap(SizedProxy, SizedProxy) and SizedSort on flat buffers of records of
+    every size 1..64 (oracle: the exchange / the sorted records, computed here)."""
+    found = False
+    rng = ctx.rng
+    ops, want = [], []
+    for i in range(n_cases):
+        size = rng.choice([1, 2, 3, 4, 5, 6, 7, 8, 9, 12, 13, 16, 17, 20, 24, 28, 31, 32, 33, 63, 64, rng.randrange(1, 65)])
+        if i % 2 == 0:
+            n = rng.choice([2, 3, 5, 8])
+            buf = bytes(rng.getrandbits(8) for _ in range(n * size))
+            a, b = rng.randrange(n), rng.randrange(n)
+            ops.append("sizedswap %d %s %d %d" % (size, buf.hex(), a, b))
+            recs = [buf[k * size:(k + 1) * size] for k in range(n)]
+            recs[a], recs[b] = recs[b], recs[a]
+            want.append(b"".join(recs).hex())
+            ctx.count(("swap", size, buf, a, b), nontrivial=a != b)
+        else:
+            n = rng.choice([0, 1, 2, 15, 16, 17, 18, 40, rng.randrange(0, 120)])   # std::sort switches algorithm at 16
+            alphabet = rng.choice([2, 4, 256])
+            buf = bytes(rng.randrange(alphabet) for _ in range(n * size))
+            ops.append("sizedsort %d %s" % (size, buf.hex() or "-"))
+            recs = sorted(buf[k * size:(k + 1) * size] for k in range(n))
+            want.append(b"".join(recs).hex() or "-")
+            ctx.count(("sort", size, buf), nontrivial=n >= 2)
+        ctx.hist("bytes.size_mod4", size % 4)
+    (rc1, o1, e1), (rc2, o2, e2) = stream.both(hexe, dexe, ops, timeout=300, env={"C16_TMPDIR": wdir})
+    if rc1 != 0 or len(o1) != len(ops):
+        k = min(len(o1), len(ops) - 1)
+        ctx.violation("SizedSort / swap(SizedProxy) crashed (rc=%s): %s" % (rc1, e1[-300:].replace("\n", " | ")),
+                      {"stream": "bytes", "op": ops[k], "stderr": e1[-2000:]})
+        return True
+    if rc2 != 0 or len(o2) != len(ops):
+        ctx.violation("Lean driver failed on the bytes stream: %s" % e2[-300:], {"stream": "bytes", "ops": ops[:3]}, no_input=True)
+        return True
+    nrep = 0
+    for op, a, b, w in zip(ops, o1, o2, want):
+        if a != w:
+            nrep += 1
+            if nrep <= 5:
+                what = ("swap(SizedProxy, SizedProxy) does not exchange exactly the two records" if op.startswith("sizedswap")
+                        else "SizedSort does not leave the sorted permutation of the records (as byte strings)")
+                ctx.violation(what, {"stream": "bytes", "op": op, "impl": a, "expected": w})
+            found = True
+        elif b != a:
+            ctx.violation("model and implementation disagree on the byte-level record sort",
+                          {"stream": "bytes", "op": op, "impl": a, "model": b}, no_input=True)
+            found = True
+    return found
+
+
 def replay(ctx, path):
     """python3 check.py C16 --replay replays/C16/<hash>.json : re-run one recorded case on the current tree."""
     import json
@@ -525,7 +627,7 @@ def replay(ctx, path):
     dexe = lean.driver_path("drv_C16")
     wdir = fresh_scratch("c16_replay_%d" % os.getpid())
     try:
-        if obj.get("stream") == "offsets":
+        if obj.get("stream") in ("offsets", "bytes"):
             (rc1, o1, e1), (rc2, o2, e2) = stream.both(hexe, dexe, [obj["op"]], env={"C16_TMPDIR": wdir})
             print("impl :", rc1, o1, e1[-500:])
             print("model:", rc2, o2)
@@ -551,7 +653,10 @@ def replay(ctx, path):
 
 
 def run(ctx):
-    problems, consts = flow.proof_phase(ctx, "C16", required=REQUIRED, drivers=["drv_C16"])
+    problems, consts = flow.proof_phase(ctx, "C16", probe="probe_C16.cc", required=REQUIRED, drivers=["drv_C16"])
+    if "swapCases" in ctx.cov.get("regenerated_constants", {}):     # keep the evidence file small
+        ctx.cov["regenerated_constants"]["swapCases"] = "(%d characters: swap table for 27 record sizes, see lean/Generated/C16.lean)" % len(
+            ctx.cov["regenerated_constants"]["swapCases"])
     ok, hexe, lg = repo.harness("c16.cc", libs=True, config="asan", extra=BOOST)
     if not ok:
         problems.append(lg)
@@ -563,6 +668,7 @@ def run(ctx):
         n = 260 if ctx.tier == "quick" else 2600
         found = sort_stream(ctx, hexe, dexe, n, wdir)
         found = offsets_stream(ctx, hexe, dexe, 200 if ctx.tier == "quick" else 3000, wdir) or found
+        found = bytes_stream(ctx, hexe, dexe, 300 if ctx.tier == "quick" else 4000, wdir) or found
     finally:
         shutil.rmtree(wdir, ignore_errors=True)
     ctx.cov["rule"] = ("sort: one case = (record file, layout, order, combiner, chain blocks, SortConfig, lazy memory, mode); "
